@@ -1,6 +1,6 @@
-//! C05 (temporary content): self-test driver of the shared font I/O groundwork
-//! (`fontio.rs`, `fontio_gen.rs`, `lib/ufoio.py`, `lib/fontio_selftest.py`).
-//! The owner of property C05 replaces this file.
+//! C05 / C01 / C04: the implementation side of the font-level checks (`lib/props/c05.py`,
+//! `c01.py`, `c04.py`; also driven by `lib/fontio_selftest.py`).  Builds abstract fonts through
+//! norad's public API, saves, loads and dumps them (`fontio.rs`), generates them (`fontio_gen.rs`).
 //!
 //!   harness c05 --out DIR --seed N [--count K] [--size 0|1|2] [--gen class,class|all]
 //!       for k in 0..K: DIR/case_k/font.json (abstract input), built.json (dump of the built
@@ -8,10 +8,19 @@
 //!       loaded.json (dump of Font::load); *_error.txt where a step failed.
 //!   harness c05 --out DIR --font FILE
 //!       the same for the single abstract font stored in FILE (case_0).
+//!   harness c05 --out DIR --fonts FILE
+//!       the same for every font of the JSON array stored in FILE (case_0 ...).
 //!   harness c05 --load DIR
 //!       for every DIR/case_*/w.ufo: loaded.json = dump of Font::load (or load_error.txt).
 //!   harness c05 --dump UFO --to FILE
 //!       dump of Font::load(UFO) (or {"__load_error__": ...}).
+//!   harness c05 --out DIR ... --two-opts
+//!       additionally saves every font a second time with independently drawn options
+//!       (n2.ufo, options2.json, loaded2.json).
+//!   harness c05 --resave DIR
+//!       for every DIR/case_*/in.ufo: first.json = dump(Font::load(in.ufo)), r.ufo = Font::save of
+//!       that font, second.json = dump(Font::load(r.ufo)); *_error.txt where a step failed
+//!       (first_error.txt: the input does not load, which is not a failure of the property).
 use crate::util::{catch, write_file, Args, Rng};
 use norad::{Font, QuoteChar, WriteOptions};
 use serde_json::{json, Value as J};
@@ -66,10 +75,58 @@ pub fn main(a: &Args) {
         return;
     }
 
+    if let Some(dir) = opt(a, "--resave") {
+        let mut cases: Vec<PathBuf> = std::fs::read_dir(dir)
+            .expect("cannot list --resave directory")
+            .filter_map(|e| e.ok().map(|e| e.path()))
+            .filter(|p| p.join("in.ufo").is_dir())
+            .collect();
+        cases.sort();
+        for c in cases {
+            for f in ["first.json", "second.json", "first_error.txt", "save_error.txt", "second_error.txt"] {
+                let _ = std::fs::remove_file(c.join(f));
+            }
+            let _ = std::fs::remove_dir_all(c.join("r.ufo"));
+            let font = match catch(|| Font::load(c.join("in.ufo"))) {
+                Err(p) => {
+                    write_file(&c.join("first_error.txt"), &format!("PANIC {}", p));
+                    continue;
+                }
+                Ok(Err(e)) => {
+                    write_file(&c.join("first_error.txt"), &format!("{:?}", e));
+                    continue;
+                }
+                Ok(Ok(f)) => f,
+            };
+            match catch(|| fontio::dump_font(&font)) {
+                Ok(j) => write_file(&c.join("first.json"), &pretty(&j)),
+                Err(p) => {
+                    write_file(&c.join("first_error.txt"), &format!("PANIC in dump {}", p));
+                    continue;
+                }
+            }
+            match catch(|| font.save(c.join("r.ufo"))) {
+                Err(p) => write_file(&c.join("save_error.txt"), &format!("PANIC {}", p)),
+                Ok(Err(e)) => write_file(&c.join("save_error.txt"), &format!("{:?}", e)),
+                Ok(Ok(())) => match load_dump(&c.join("r.ufo")) {
+                    Ok(j) => write_file(&c.join("second.json"), &pretty(&j)),
+                    Err(e) => write_file(&c.join("second_error.txt"), &e),
+                },
+            }
+        }
+        return;
+    }
+
+    let two_opts = a.extra.iter().any(|x| x == "--two-opts");
     let given: Option<J> = opt(a, "--font").map(|f| {
         serde_json::from_str(&std::fs::read_to_string(f).expect("cannot read --font file")).expect("--font file is not JSON")
     });
-    let count: u64 = if given.is_some() { 1 } else { opt(a, "--count").and_then(|s| s.parse().ok()).unwrap_or(if a.thorough() { 2000 } else { 200 }) };
+    // --fonts FILE: a JSON array of abstract fonts, one case each
+    let given_many: Option<Vec<J>> = opt(a, "--fonts").map(|f| {
+        let j: J = serde_json::from_str(&std::fs::read_to_string(f).expect("cannot read --fonts file")).expect("--fonts file is not JSON");
+        j.as_array().expect("--fonts file must hold an array").clone()
+    });
+    let count: u64 = if let Some(v) = &given_many { v.len() as u64 } else if given.is_some() { 1 } else { opt(a, "--count").and_then(|s| s.parse().ok()).unwrap_or(if a.thorough() { 2000 } else { 200 }) };
     let fixed_size: Option<u32> = opt(a, "--size").and_then(|s| s.parse().ok());
     let classes: Vec<String> = opt(a, "--gen").map(|s| s.split(',').map(|x| x.to_string()).collect()).unwrap_or_default();
     let gopts = fontio_gen::GenOpts::from_names(&classes);
@@ -81,12 +138,38 @@ pub fn main(a: &Args) {
         let dir = a.out.join(format!("case_{}", k));
         std::fs::create_dir_all(&dir).unwrap();
         let size = fixed_size.unwrap_or_else(|| rng.below(3) as u32);
-        let font_json = match &given {
-            Some(j) => j.clone(),
-            None => fontio_gen::gen_font_with(&mut rng, size, &gopts),
+        let font_json = match (&given_many, &given) {
+            (Some(v), _) => v[k as usize].clone(),
+            (None, Some(j)) => j.clone(),
+            (None, None) => fontio_gen::gen_font_with(&mut rng, size, &gopts),
         };
         write_file(&dir.join("font.json"), &pretty(&font_json));
         let (ic, iw, q) = (rng.below(2), rng.below(9), rng.below(2));
+        let default_opts = rng.below(3) == 0;
+        let (ic2, iw2, q2) = (rng.below(2), rng.below(9), rng.below(2));
+        // --options / --options2 JSON: fixed write options (replay)
+        let fixed = |name: &str| -> Option<(bool, u64, u64, u64)> {
+            opt(a, name).and_then(|t| serde_json::from_str::<J>(t).ok()).map(|j| {
+                (
+                    j["default"].as_bool().unwrap_or(false),
+                    if j["indent_char"].as_str() == Some("space") { 1 } else { 0 },
+                    j["indent_width"].as_u64().unwrap_or(1),
+                    if j["single_quote"].as_bool().unwrap_or(false) { 1 } else { 0 },
+                )
+            })
+        };
+        let (default_opts, ic, iw, q) = fixed("--options").unwrap_or((default_opts, ic, iw, q));
+        let (default2, ic2, iw2, q2) = fixed("--options2").unwrap_or((false, ic2, iw2, q2));
+        let mk = |dflt: bool, ic: u64, iw: u64, q: u64| -> (WriteOptions, J) {
+            let mut wo = WriteOptions::default();
+            if !dflt {
+                wo = wo.indent(if ic == 0 { WriteOptions::TAB } else { WriteOptions::SPACE }, iw as usize);
+                if q == 1 {
+                    wo = wo.quote_char(QuoteChar::Single);
+                }
+            }
+            (wo, json!({"default": dflt, "indent_char": if ic == 0 { "tab" } else { "space" }, "indent_width": iw, "single_quote": q == 1}))
+        };
         let mut status = "ok";
         let built = match catch(|| fontio::build_font(&font_json)) {
             Err(p) => Err(format!("PANIC {}", p)),
@@ -99,19 +182,22 @@ pub fn main(a: &Args) {
             }
             Ok(font) => {
                 write_file(&dir.join("built.json"), &pretty(&fontio::dump_font(&font)));
-                let mut wo = WriteOptions::default();
                 // the default (one tab) in a third of the cases, otherwise char x width 0..8
-                let default_opts = rng.below(3) == 0;
-                if !default_opts {
-                    wo = wo.indent(if ic == 0 { WriteOptions::TAB } else { WriteOptions::SPACE }, iw as usize);
-                    if q == 1 {
-                        wo = wo.quote_char(QuoteChar::Single);
+                let (wo, oj) = mk(default_opts, ic, iw, q);
+                write_file(&dir.join("options.json"), &pretty(&oj));
+                if two_opts {
+                    let (wo2, oj2) = mk(default2, ic2, iw2, q2);
+                    write_file(&dir.join("options2.json"), &pretty(&oj2));
+                    let ufo2 = dir.join("n2.ufo");
+                    match catch(|| font.save_with_options(&ufo2, &wo2)) {
+                        Err(p) => write_file(&dir.join("save2_error.txt"), &format!("PANIC {}", p)),
+                        Ok(Err(e)) => write_file(&dir.join("save2_error.txt"), &format!("{:?}", e)),
+                        Ok(Ok(())) => match load_dump(&ufo2) {
+                            Ok(j) => write_file(&dir.join("loaded2.json"), &pretty(&j)),
+                            Err(e) => write_file(&dir.join("load2_error.txt"), &e),
+                        },
                     }
                 }
-                write_file(
-                    &dir.join("options.json"),
-                    &pretty(&json!({"default": default_opts, "indent_char": if ic == 0 { "tab" } else { "space" }, "indent_width": iw, "single_quote": q == 1})),
-                );
                 let ufo = dir.join("n.ufo");
                 match catch(|| font.save_with_options(&ufo, &wo)) {
                     Err(p) => {
